@@ -85,8 +85,8 @@ def _events(args):
             new = w.df.iloc[sel].reset_index(drop=True).copy()
             if rng.random() < 0.6:
                 # unseen groups: rename some cells of the grouping variables
-                for col in ("g", "h"):
-                    if rng.random() < 0.7:
+                for col in ("g", "h", "f"):
+                    if rng.random() < 0.5:
                         s = new[col].astype(object)
                         for r in range(len(s)):
                             if rng.random() < 0.4:
